@@ -25,7 +25,7 @@ package mcp
 // manager_lifecycle.go — C16 (version negotiation, advertised capabilities)
 
 //@ type lifecycleManager
-//@   ctor newLifecycleManager, withProtocolVersion, withSupportedVersions
+//@   ctor newLifecycleManager, withProtocolVersion, withSupportedVersions, withCapabilities
 //@   final[C16] supportedVersions, defaultProtocolVersion
 //@   final[C06,C20] sessionStates
 //@   invariant self.sessionStates != nil
@@ -327,3 +327,53 @@ package mcp
 //@   loop 3 increases[C07 every-iteration-consumes-a-line] rdprog
 //@ func stdioClientTransport.stderrLoop
 //@   waive no-small-token-limit
+
+// ---------------------------------------------------------------------------
+// C12 / C20 / C09 / C05 / C11 — synchronisation discipline.  A field declared
+// `guarded ... by mu` may be read only with mu held (read or write mode) and
+// written only with mu held for writing; map and slice operations on a value
+// loaded from such a field count as accesses of the field.  `final` fields are
+// written only by the constructors.  Observing the discipline excludes data
+// races on the declared fields.
+
+//@ type toolManager
+//@   guarded[C12,C20] tools, toolsOrder by mu
+//@ type resourceManager
+//@   guarded[C12,C20] subscribers by subMu
+//@ type httpServerHandler
+//@   guarded[C11,C20] getSSEConnections by getSSEConnectionsLock
+//@ type getSSEConnection
+//@   guarded[C09,C20] lastEventID by writeLock
+//@ type responseManager
+//@   guarded[C05,C20] pendingRequests by mutex
+//@ type SSEServer
+//@   guarded[C05,C20] responses by responsesMu
+//@   guarded[C12,C20] notificationHandlers by notificationMu
+//@ type Server
+//@   guarded[C12,C20] notificationHandlers by notificationMu
+//@ type StdioServer
+//@   guarded[C05,C20] responses by responsesMu
+//@   guarded[C12,C20] notificationHandlers by notificationMu
+//@ type sseSession
+//@   guarded[C20] data by dataMu
+//@ type stdioSession
+//@   guarded[C20] data, lastActivity by mu
+//@ type lifecycleManager
+//@   guarded[C20] sessionStates, capabilities by mu
+//@ type DefaultRootsProvider
+//@   guarded[C20] roots by mu
+//@ type streamableHTTPClientTransport
+//@   init newStreamableHTTPClientTransport, withClientTransportGetSSEEnabled
+//@   guarded[C12,C20] notificationHandlers by handlersMutex
+//@   final[C20] sessionID, lastEventID, isStateless, enableGetSSE
+//@ type sseClientTransport
+//@   guarded[C20] responses by responsesMu
+//@   guarded[C20] onNotification by notificationMu
+//@ type stdioClientTransport
+//@   guarded[C20] pendingRequests by pendingMutex
+//@   guarded[C12,C20] notificationHandlers by handlersMutex
+//@ type Client
+//@   guarded[C20] rootsProvider by rootsMu
+//@   final[C20] initialized, state
+//@ type StdioClient
+//@   guarded[C20] rootsProvider by rootsMu
